@@ -223,6 +223,13 @@ class SymReal:
     def __rtruediv__(self, o):
         return self._bin(o, lambda a, b: b / a)
 
+    def __floordiv__(self, o):
+        # Python's // on reals is floor(a / b); z3's ToInt is floor
+        return self._bin(o, lambda a, b: z3.ToReal(z3.ToInt(a / b)))
+
+    def __rfloordiv__(self, o):
+        return self._bin(o, lambda a, b: z3.ToReal(z3.ToInt(b / a)))
+
     def __neg__(self):
         return SymReal(_simp(-self.t))
 
